@@ -1377,6 +1377,14 @@ class FnCtx:
             return None
         if isinstance(k, tuple):
             return ("L",) + k
+        if "." in k and not self.len_events().get(k):
+            # a vector that was moved into a field and is not resized there: its length is that of the value moved in
+            # (the value of local v as joined at block j is version ('join', j) of v)
+            x = vec_ref_term
+            while x[0] in ("ref", "deref"):
+                x = x[2] if x[0] == "ref" else x[1]
+            if x[0] == "phi" and x[1] == self.ft.path and (self.fn["locals"][x[3]]["ty"] or "").startswith("std::vec::Vec<"):
+                return ("L", "_%d" % x[3], ("join", x[2]))
         pos = len(self.ft.blocks[b]["stmts"])
         return ("L", k, self.len_version(k, b, pos))
 
@@ -2357,6 +2365,19 @@ class FnCtx:
             if lp.done_succ is not None and at not in lp.body and self.ft.cfg.dominates(lp.done_succ, at) \
                     and len([p_ for p_ in self.ft.cfg.pred[lp.done_succ] if p_ in self.ft.cfg.reach]) == 1:
                 out.append(({src: 1, atom1: -1}, 0))
+            elif lp.done_succ is not None and at not in lp.body and self.ft.cfg.dominates(lp.head, at) \
+                    and len([p_ for p_ in self.ft.cfg.pred[lp.done_succ] if p_ in self.ft.cfg.reach]) == 1:
+                # the early ways out join the normal one before a test of the result's variant (a spliced helper followed
+                # by `?`): they count as leaving when, followed with that test taken into account, they never get here
+                from .terms import reachable_threaded
+                key_ = ("early", id(lp), at)
+                hit_ = self.memo.get(key_)
+                if hit_ is None:
+                    early = [(b_, s_) for b_, s_ in lp.exits if s_ != lp.done_succ and self.ft.blocks[s_]["term"]["k"] != "unreachable" and not self.ft.blocks[s_].get("cleanup")]
+                    hit_ = (lp, all(at not in reachable_threaded(self.ft, b_, s_) for b_, s_ in early))
+                    self.memo[key_] = hit_
+                if hit_[1]:
+                    out.append(({src: 1, atom1: -1}, 0))
         return out
 
     def _compute_len_lemmas(self):
